@@ -881,10 +881,18 @@ def run(ck: Checker):
     from .. import history_fold
     history_fold.fold_histories(ck, 'C02.HIST')
     ck.floor('C02.HIST', 12)
+    # directed replace_subcircuit situations that seeded histories rarely produce (a replacement that would close a cycle, an
+    # inner gate read from outside, overlapping mappings): refused, or the circuit stays well formed (shared with C19)
+    ck.rule('C19.SUBC', 'replace_subcircuit in the situations the statement of C19 names: refused, or a well-formed acyclic circuit (shared with C19)')
+    history_fold.fold_replace_cases(ck, 'C19.SUBC')
+    # minimize_subcircuits writes circuit state in place (short-circuited cone outputs): its hand-made cases, shared with C04
+    ck.rule('C04.FOLD', 'minimize_subcircuits folded over the hand-made model circuits of C04 (one configuration): the result is well formed (shared with C04)')
+    from .. import minimize_fold
+    minimize_fold.fold_minimize(ck, 'C04.FOLD', handmade_only=True)
     fold_primitives(ck, den)
     # structural rules: write-site shapes, guard-before-write, cycle checks after re-pointing.  They state the clauses for circuits and
     # histories of any size but know one way of writing each mutator: where they do not recognise the code the clause is the fold's
-    with ck.soft('C02.HIST (histories of public mutations folded)'):
+    with ck.soft('C02.HIST (histories of public mutations folded)', need_coverage=True):
         check_sites(ck)
         ck.floor('C02.IDX', 60)
     with ck.soft('C02.HIST (histories of public mutations folded)'):
